@@ -1446,6 +1446,9 @@ class AnsiString:
             self._s = obj._s
             self._fmts = obj._fmts
             return self
+        elif obj is self:
+            # Nothing was replaced - the result must still be a new object
+            return self.copy()
         else:
             return obj
 
